@@ -295,6 +295,27 @@ namespace bluetoe {
                 this->state( details::sm_pairing_state::lesc_pairing_random_exchanged );
 
                 std::copy( remote_nonce, remote_nonce + 16, remote_nonce_.begin() );
+                remote_dhkey_check_received_ = false;
+            }
+
+            /*
+             * DHKey check (Ea) received, while still waiting for the user response. It has to be
+             * verified, before the pairing can be completed.
+             */
+            void remote_dhkey_check( const std::uint8_t* dhkey_check )
+            {
+                std::copy( dhkey_check, dhkey_check + 16, remote_dhkey_check_.begin() );
+                remote_dhkey_check_received_ = true;
+            }
+
+            bool remote_dhkey_check_received() const
+            {
+                return remote_dhkey_check_received_;
+            }
+
+            const uint128_t& remote_dhkey_check() const
+            {
+                return remote_dhkey_check_;
             }
 
             void lesc_pairing_completed( const details::uint128_t& long_term_key )
@@ -359,6 +380,8 @@ namespace bluetoe {
             ecdh_public_key_t                   remote_public_key_;
             uint128_t                           local_nonce_;
             uint128_t                           remote_nonce_;
+            uint128_t                           remote_dhkey_check_;
+            bool                                remote_dhkey_check_received_;
             io_capabilities_t                   remote_io_caps_;
             uint128_t                           long_term_key_;
         };
@@ -507,6 +530,27 @@ namespace bluetoe {
                 this->state( details::sm_pairing_state::lesc_pairing_random_exchanged );
 
                 std::copy( remote_nonce, remote_nonce + 16, state_data_.lesc_state.remote_nonce_.begin() );
+                state_data_.lesc_state.remote_dhkey_check_received_ = false;
+            }
+
+            /*
+             * DHKey check (Ea) received, while still waiting for the user response. It has to be
+             * verified, before the pairing can be completed.
+             */
+            void remote_dhkey_check( const std::uint8_t* dhkey_check )
+            {
+                std::copy( dhkey_check, dhkey_check + 16, state_data_.lesc_state.remote_dhkey_check_.begin() );
+                state_data_.lesc_state.remote_dhkey_check_received_ = true;
+            }
+
+            bool remote_dhkey_check_received() const
+            {
+                return state_data_.lesc_state.remote_dhkey_check_received_;
+            }
+
+            const uint128_t& remote_dhkey_check() const
+            {
+                return state_data_.lesc_state.remote_dhkey_check_;
             }
 
             void pairing_requested( const io_capabilities_t& remote_io_caps )
@@ -597,6 +641,8 @@ namespace bluetoe {
                     ecdh_public_key_t           remote_public_key_;
                     uint128_t                   local_nonce_;
                     uint128_t                   remote_nonce_;
+                    uint128_t                   remote_dhkey_check_;
+                    bool                        remote_dhkey_check_received_;
                     io_capabilities_t           remote_io_caps_;
                     enum lesc_pairing_algorithm algorithm;
                 }                                           lesc_state;
